@@ -6,7 +6,7 @@ use crate::ug::ast::*;
 use crate::ug::build::*;
 use serde_json::{Value, json};
 
-pub const CAPTURES: [&str; 8] = ["none", "param", "let", "patvar", "ref", "closure", "topfn", "string-let"];
+pub const CAPTURES: [&str; 10] = ["none", "param", "let", "patvar", "ref", "closure", "topfn", "string-let", "fn-param", "fn-alias"];
 pub const FLOWS: [&str; 17] = [
     "let-call", "rebind", "tuple-elem", "struct-field", "struct-field-direct", "array-elem", "ref-content", "vec-elem", "returned-from-fn",
     "returned-from-closure", "argument", "if-result", "match-result", "generic-apply", "argument-twice", "tuple-direct", "stored-then-passed",
@@ -20,6 +20,15 @@ fn fn_ty() -> Ty {
 struct Cx {
     n: Names,
     items: Vec<Item>,
+    /// function-typed parameter the enclosing function must declare (capture kind "fn-param")
+    fn_param: Option<VarId>,
+}
+
+fn ensure_twice(cx: &mut Cx) {
+    if !cx.items.iter().any(|i| matches!(i, Item::Fn(f) if f.name == "twice")) {
+        let x = cx.n.fresh("x");
+        cx.items.push(fn_def("twice", vec![(x, Ty::i32())], Some(Ty::i32()), bin(BinOp::Mul, v(x), int(2))));
+    }
 }
 
 /// build the closure-creating part: returns (statements before creation, closure expression, statements after the call that
@@ -72,11 +81,28 @@ fn make_closure(cx: &mut Cx, caps: &[&str], param: VarId, outer_param: Option<Va
                 sum = add(sum, E::Call(Box::new(v(inner)), vec![int(100)]));
             }
             "topfn" => {
-                if !cx.items.iter().any(|i| matches!(i, Item::Fn(f) if f.name == "twice")) {
-                    let x = cx.n.fresh("x");
-                    cx.items.push(fn_def("twice", vec![(x, Ty::i32())], Some(Ty::i32()), bin(BinOp::Mul, v(x), int(2))));
-                }
+                ensure_twice(cx);
                 sum = add(sum, call("twice", vec![v(a)]));
+            }
+            "fn-param" => {
+                // a function-typed parameter of the enclosing function, used in callee position only
+                ensure_twice(cx);
+                let hf = match cx.fn_param {
+                    Some(h) => h,
+                    None => {
+                        let h = cx.n.fresh("hf");
+                        cx.fn_param = Some(h);
+                        h
+                    }
+                };
+                sum = add(sum, E::Call(Box::new(v(hf)), vec![E::Call(Box::new(v(hf)), vec![v(a)])]));
+            }
+            "fn-alias" => {
+                // a local alias of a top-level function, used in callee position only
+                ensure_twice(cx);
+                let fal = cx.n.fresh("fal");
+                pre.push(let_(fal, E::FnRef("twice".to_string(), vec![])));
+                sum = add(sum, E::Call(Box::new(v(fal)), vec![v(a)]));
             }
             _ => {}
         }
@@ -118,7 +144,7 @@ fn add_tail(b: E, extra: E) -> E {
 }
 
 pub fn build(caps: &[&str], flow: &str, variant: &str, nesting: usize) -> Option<Program> {
-    let mut cx = Cx { n: Names::new(), items: Vec::new() };
+    let mut cx = Cx { n: Names::new(), items: Vec::new(), fn_param: None };
     cx.items = prelude(&mut cx.n);
     let p = cx.n.fresh("p");
     let outer_param = if nesting >= 2 { Some(cx.n.fresh("op")) } else { None };
@@ -212,18 +238,24 @@ pub fn build(caps: &[&str], flow: &str, variant: &str, nesting: usize) -> Option
             if caps.iter().any(|c| matches!(*c, "ref")) && variant == "mutate-ref-both" {
                 return None;
             }
-            let mut cx2 = Cx { n: std::mem::take(&mut cx.n), items: std::mem::take(&mut cx.items) };
+            let mut cx2 = Cx { n: std::mem::take(&mut cx.n), items: std::mem::take(&mut cx.items), fn_param: None };
             let q = cx2.n.fresh("q");
             if nesting >= 2 {
                 return None;
             }
             let (pre2, clo2, _post2, _, _) = make_closure(&mut cx2, caps, q, None);
-            cx2.items.push(fn_def("mk", vec![(q, Ty::i32())], Some(fn_ty()), block(pre2, Some(clo2))));
+            let mut mk_params = vec![(q, Ty::i32())];
+            let mut mk_args = vec![arg(6)];
+            if let Some(hf2) = cx2.fn_param {
+                mk_params.push((hf2, fn_ty()));
+                mk_args.push(E::FnRef("twice".to_string(), vec![]));
+            }
+            cx2.items.push(fn_def("mk", mk_params, Some(fn_ty()), block(pre2, Some(clo2))));
             cx.n = cx2.n;
             cx.items = cx2.items;
             let g = cx.n.fresh("g");
             // the statements of `pre` already ran in this function too; harmless (they only print probes)
-            b.push(let_(g, call("mk", vec![arg(6)])));
+            b.push(let_(g, call("mk", mk_args)));
             b.push(st(println(s("created"))));
             E::Call(Box::new(v(g)), vec![arg(7)])
         }
@@ -293,8 +325,14 @@ pub fn build(caps: &[&str], flow: &str, variant: &str, nesting: usize) -> Option
     }
     b.extend(post);
     b.push(st(println(s("done"))));
-    cx.items.push(fn_def("host", vec![(p, Ty::i32())], Some(Ty::Unit), block(b, None)));
-    cx.items.push(fn_def("main", vec![], None, block(vec![st(call("host", vec![T6::I32.probe(1)]))], None)));
+    let mut host_params = vec![(p, Ty::i32())];
+    let mut host_args = vec![T6::I32.probe(1)];
+    if let Some(hf) = cx.fn_param {
+        host_params.push((hf, fn_ty()));
+        host_args.push(E::FnRef("twice".to_string(), vec![]));
+    }
+    cx.items.push(fn_def("host", host_params, Some(Ty::Unit), block(b, None)));
+    cx.items.push(fn_def("main", vec![], None, block(vec![st(call("host", host_args))], None)));
     Some(Program::single(cx.items, cx.n.names.clone()))
 }
 
@@ -303,7 +341,7 @@ pub struct Closures;
 fn capture_sets(tier: Tier) -> Vec<Vec<&'static str>> {
     let mut v: Vec<Vec<&'static str>> = CAPTURES.iter().map(|c| vec![*c]).collect();
     let pairs: Vec<(usize, usize)> = if tier == Tier::Quick {
-        vec![(1, 2), (2, 4), (3, 4), (4, 5), (1, 6)]
+        vec![(1, 2), (2, 4), (3, 4), (4, 5), (1, 6), (1, 8), (8, 9)]
     } else {
         let mut p = Vec::new();
         for i in 1..CAPTURES.len() {
@@ -327,7 +365,7 @@ impl Family for Closures {
         &["C08", "C01", "C02", "C03", "C04"]
     }
     fn rule(&self) -> &'static str {
-        "capture sets (all singles over {none, fn param, let, pattern variable, Ref cell, another closure, top-level fn, string let}; selected pairs in quick, all pairs in thorough) x 17 flows of the closure value from creation to call (let, rebind, tuple element, struct field, array element, Ref content, Vec element, returned from fn, returned from closure, argument, argument called twice, branch result of if/match, generic apply, …) x variants {plain, captured name shadowed after creation, captured Ref mutated from both sides, called twice} x nesting depth 1 (thorough: 1-2). non-trivial = programs whose closure captures at least one variable; distinct = distinct source text"
+        "capture sets (all singles over {none, fn param, let, pattern variable, Ref cell, another closure, top-level fn, string let, function-typed parameter called in callee position only, local alias of a top-level fn called in callee position only}; selected pairs in quick, all pairs in thorough) x 17 flows of the closure value from creation to call (let, rebind, tuple element, struct field, array element, Ref content, Vec element, returned from fn, returned from closure, argument, argument called twice, branch result of if/match, generic apply, …) x variants {plain, captured name shadowed after creation, captured Ref mutated from both sides, called twice} x nesting depth 1 (thorough: 1-2). non-trivial = programs whose closure captures at least one variable; distinct = distinct source text"
     }
     fn cases(&self, tier: Tier) -> Box<dyn Iterator<Item = Value> + '_> {
         let mut v = Vec::new();
